@@ -103,12 +103,14 @@ def run(out, info, tier, seed):
     for idx, c in enumerate(cases):
         ps, pd, sa, da, sh, w, ini, cache = c
         prior = (idx % 3 == 0) and not exhaustive or (exhaustive and idx % 2 == 0)
-        res, unchanged, eff = one_case_wrapped(ps, pd, sa, da, sh, w, ini, cache, prior)
+        # hierarchical entities: the attribute facts that count are those of the entity's own model, not its parent's
+        child = ((idx // 2) % 2 == 1, (idx // 4) % 2 == 1) if idx >= len(corpus) else (False, False)
+        res, unchanged, eff = one_case_wrapped(ps, pd, sa, da, sh, w, ini, cache, prior, child)
         seen += 1
         hist[res.split(':')[0]] = hist.get(res.split(':')[0], 0) + 1
         want_reject = spec_reject(ps, pd, sa, da, sh, w, ini)
         desc = dict(kind='connect', src_group=ps, dst_group=pd, src_attr=sa, dst_attr=da, time_shifted=sh, weak=w,
-                    initial_data=ini, cache=cache, prior_connection=prior)
+                    initial_data=ini, cache=cache, prior_connection=prior, child_entity=list(child))
         # monitor: the property itself on the implementation
         if res.startswith('crashed') or (res == 'rejected') != bool(want_reject):
             violations.append(dict(desc, expected='rejected' if want_reject else 'accepted', observed=res))
@@ -133,30 +135,34 @@ def run(out, info, tier, seed):
                     'rule': f'placements of source/destination simulator in a group tree with nested and sibling groups ({len(PLACES)}^2) x source attr '
                             '{persistent, event, missing} x dest attr {non-trigger, trigger, missing} x time_shifted {0,1,2} x weak x initial_data x cache '
                             f'= {len(space)} cases; thorough = all, quick = seeded sample of 1500; half/third with a prior accepted connection to make '
-                            '"unchanged tables" non-trivial; non-trivial = different groups or weak or shifted',
+                            '"unchanged tables" non-trivial; in three quarters of the calls the source and/or destination entity is a child entity (model M) created '
+                            'hierarchically under a parent of another model whose attribute facts differ; non-trivial = different groups or weak or shifted',
                     'samples': [dict(zip(['src_group', 'dst_group', 'src_attr', 'dst_attr', 'shift', 'weak', 'init', 'cache'], cases[3])),
                                 {'model_request': reqs[3], 'model_reply': model[3] if model else None}],
                     'traces_validated_against_impl': seen if model is not None else 0,
                     'outcome_histogram': hist, 'monitor_failures': len(violations), 'correspondence_mismatches': len(mismatches)}
 
 
-def one_case_wrapped(ps, pd, sa, da, sh, w, ini, cache, prior):
-    # build_world does not return entity handles; wrap World.start to record them
+def one_case_wrapped(ps, pd, sa, da, sh, w, ini, cache, prior, child=(False, False)):
+    # build_world does not return entity handles; wrap World.start to record them.  child[k]: the entity of
+    # simulator k is a child (model M) of a parent entity of another model P whose attribute facts differ.
     import mosaik.scenario as sc
     orig = sc.World.start
     ents = {}
 
     def start(self, *a, **k):
         mf = orig(self, *a, **k)
-        real_M = mf.M
+        real_M, real_P = mf.M, getattr(mf, 'P', None)
         class Wrap:
             def M(_s, **kw):
                 e = real_M(**kw); ents[k['sim_id']] = e; return e
+            def P(_s, **kw):
+                e = real_P(**kw); ents[k['sim_id']] = e.children[0]; return e
         return Wrap()
     sc.World.start = start
     try:
         case = {'n': 2, 'types': ['hybrid', 'hybrid'], 'grp': [ps, pd], 'edges': [], 'until': 2,
-                'beh': [{'type': 'hybrid'}, {'type': 'hybrid'}]}
+                'beh': [{'type': 'hybrid', 'parent_model': bool(child[0])}, {'type': 'hybrid', 'parent_model': bool(child[1])}]}
         world = simlib.build_world(case, cache=cache)
     finally:
         sc.World.start = orig
@@ -187,7 +193,7 @@ def replay(path, out):
     if r.get('kind') != 'connect':
         print(json.dumps(r, indent=1)); print('obligation replay: re-run ./check C11'); return 1
     res, unchanged, eff = one_case_wrapped(r['src_group'], r['dst_group'], r['src_attr'], r['dst_attr'], r['time_shifted'],
-                                           r['weak'], r['initial_data'], r['cache'], r['prior_connection'])
+                                           r['weak'], r['initial_data'], r['cache'], r['prior_connection'], tuple(r.get('child_entity', (False, False))))
     want = spec_reject(r['src_group'], r['dst_group'], r['src_attr'], r['dst_attr'], r['time_shifted'], r['weak'], r['initial_data'])
     print('observed:', res, 'tables unchanged:', unchanged, 'expected:', 'rejected' if want else 'accepted')
     bad = res.startswith('crashed') or (res == 'rejected') != bool(want) or (res == 'rejected' and not unchanged)
